@@ -827,3 +827,33 @@ for _ptr in (True, False):
              {"self": {"key_is_chunked": "const:True", "ngroups": "int", "_group_key_pointers": "chunks:int:int64" if _ptr else "none"}, "mask": "opaque"},
              _count_ikey_contract(_ptr), specs=_count_ikey_specs(_ptr), setup=_late_count_ikey(_ptr),
              callees={"self._resolve_mask_argument_into_chunks": _RESOLVE, "numba_funcs.group_size": _GSIZE}, props=("C02", "C03", "C05", "C13"))
+
+# ----------------------------------------------------------------------------- the merge of per-chunk partial results on CHUNKED keys (core.py, C03 / C04 / C06 / C11)
+# GroupBy._apply_gb_func_across_chunked_group_keys is dynamic glue (signature().bind, a thread pool, zip(*...)) outside the subset; its inner loop - the only place where the
+# partial results of the key chunks are merged through the pointer tables - is extracted mechanically on every run (Engine: "::loop(<header>)") and proved against the CONTRACT of
+# reduce_array_pair (proved above) with the same merge as L-merge:  per GLOBAL group g, MAg / MCg(g, j) = merged accumulator / count after the first j chunks,
+#     for a local code l of chunk j (global code ptr[l]):  MAg(ptr[l], j+1) = MAg(ptr[l], j) if the chunk saw nothing of it (count 0) else STEP(MAg(ptr[l], j), partial, MCg(ptr[l], j))
+#     for a global code no local code of chunk j maps to:   unchanged
+# chunk j is paired with pointer table first_chunk_in + j; the trailing slot of every partial (the chunk's null-key group) is dropped; the trailing slot of `combined` (the null
+# group of the result) is never written.  Free variables of the loop are parameters; what the surrounding glue establishes about them is stated as requires (ASSUMED, bounded tier).
+MAg = z3.Function("MAg", I, I, V); MCg = z3.Function("MCg", I, I, I)
+def _chunkmerge_contract():
+    P = "self._group_key_pointers"; ptr = f"{P}[first_chunk_in + _it0]"; G = "len(count)"; R = "results_one_value"; Cn = "counts_one_value"
+    return {"fragment_params": ["self", "results_one_value", "counts_one_value", "combined", "count", "first_chunk_in", "reducer"],
+            "requires": ["first_chunk_in >= 0", f"first_chunk_in + len({R}) <= len({P})", f"len({Cn}) == len({R})", f"len(combined) == {G} + 1",
+                         f"forall(j, 0, len({R}), len({R}[j]) == len({P}[first_chunk_in + j]) + 1 and len({Cn}[j]) == len({R}[j]))",
+                         f"forall(c, 0, len({P}), forall(l, 0, len({P}[c]), 0 <= {P}[c][l] and {P}[c][l] < {G}))",
+                         f"forall(c, 0, len({P}), forall(l, 0, len({P}[c]), forall(m, 0, l, {P}[c][m] != {P}[c][l])))",
+                         f"forall(g, 0, {G}, MAg(g, 0) == combined[g] and MCg(g, 0) == count[g])", f"NULLSLOT() == combined[{G}]"],
+            "nonneg_index": ["combined", "count"],
+            "loops": {0: {"iter": "enumerate(results_one_value)",
+                          "invariant": [f"forall(g, 0, {G}, combined[g] == MAg(g, _it0) and count[g] == MCg(g, _it0))", f"combined[{G}] == NULLSLOT()"],
+                          "unfold": [f"forall(l, 0, len({ptr}), MAg({ptr}[l], _it0 + 1) == ite({Cn}[_it0][l] == 0, MAg({ptr}[l], _it0), STEP_acc(MAg({ptr}[l], _it0), {R}[_it0][l], MCg({ptr}[l], _it0))) and MCg({ptr}[l], _it0 + 1) == MCg({ptr}[l], _it0) + {Cn}[_it0][l])",
+                                     f"forall(g, 0, {G}, implies(forall(l, 0, len({ptr}), {ptr}[l] != g), MAg(g, _it0 + 1) == MAg(g, _it0) and MCg(g, _it0 + 1) == MCg(g, _it0)))"]}},
+            "ensures": [f"forall(g, 0, {G}, combined[g] == MAg(g, len({R})) and count[g] == MCg(g, len({R})))", f"combined[{G}] == NULLSLOT()"]}
+_NULLSLOT = z3.Const("NULLSLOT", V)
+register(CORE, "GroupBy._apply_gb_func_across_chunked_group_keys::loop(for j, result in enumerate(results_one_value))", "pointer tables,generic reducer",
+         {"self": {"_group_key_pointers": "chunks:int:int64"}, "results_one_value": "chunks:opaque:V", "counts_one_value": "chunks:int:int64", "combined": "arr:opaque:V", "count": "arr:int:int64",
+          "first_chunk_in": "int", "reducer": "step:STEP"},
+         _chunkmerge_contract(), specs={"STEP_acc": stepA, "STEP_cnt": stepC, "MAg": MAg, "MCg": MCg, "NULLSLOT": lambda: _NULLSLOT},
+         callees={"numba_funcs.reduce_array_pair": _RapCallee()}, props=("C03", "C04", "C06", "C11"), lemma_deps=("L-merge", "L-merge-step"))
